@@ -22,8 +22,30 @@ package packageimport
 //     between registering and receiving.  The broadcast must not wait for it (buffer of one).
 // Every wait has a deadline: a lost wake-up or deadlock yields `TIMEOUT ...` in the output.
 //
-// The second test (stream "race", thorough tier, -race) lets goroutines run freely and only
-// prints a summary; it is exploration, not part of the proof.
+// Stream "park" (TestVerifC20Park) adds the step
+//
+//	park <image> ok|err k mid=[<caller> <image> ...]
+//
+// which makes the window INSIDE handleResponse observable on the real goroutines without any hook
+// in the code under test: before the pull is released the harness inserts two unbuffered "gate"
+// receivers into the image's entry after the first k registered receivers.  The real broadcast
+// loop then serves k callers and blocks sending to the second gate - exactly the state of a
+// broadcaster that is descheduled in the middle of its loop.  While it is parked the requests
+// `mid` are issued through the real Pull / handleRequest, then the gate is opened and the harness
+// waits until the broadcast has ended and the requests issued meanwhile have gone through.  A
+// request that is lost in that window is never answered: `no-fresh-pull` / `end w=1`.  Packages
+// handed out before the parking point are edited by their callers while the loop is still
+// copying for the others: a copy taken from an object a caller already owns shows the edit.
+//
+// Aliasing is measured two ways on every scenario: every caller edits what it was handed (in-place
+// byte write the moment it gets it, on its own goroutine; map write as soon as no broadcast is in
+// progress) and afterwards nobody's package may show anybody else's edit; and the identities (package pointer, Files map, backing array of every
+// file) of everything handed out and of the objects the pull function returned must be pairwise
+// distinct.
+//
+// The tests TestVerifC20Race (stream "race", thorough tier, -race) and TestVerifC20Storm (stream
+// "storm": big packages, callers that ask again the moment they are answered) let goroutines run
+// freely and only print a summary; they are exploration, not part of the proof.
 
 import (
 	"context"
@@ -31,6 +53,7 @@ import (
 	"errors"
 	"fmt"
 	"math/rand"
+	"reflect"
 	"runtime"
 	"sort"
 	"strings"
@@ -38,6 +61,7 @@ import (
 	"sync/atomic"
 	"testing"
 	"time"
+	"unsafe"
 
 	"github.com/google/go-containerregistry/pkg/crane"
 	"k8s.io/apimachinery/pkg/types"
@@ -55,11 +79,18 @@ const (
 	c20SlowCaller  = c20Callers - 1
 )
 
+type c20Mid struct {
+	C int `json:"c"`
+	I int `json:"i"`
+}
+
 type c20Step struct {
-	Op string `json:"op"` // req | done
-	C  int    `json:"c"`  // caller (req)
-	I  int    `json:"i"`  // image
-	R  string `json:"r"`  // ok | err (done)
+	Op  string   `json:"op"` // req | done | park
+	C   int      `json:"c"`  // caller (req)
+	I   int      `json:"i"`  // image
+	R   string   `json:"r"`  // ok | err (done, park)
+	K   int      `json:"k,omitempty"`   // park: number of receivers served before the parking point
+	Mid []c20Mid `json:"mid,omitempty"` // park: requests arriving while the broadcast is parked
 }
 
 type c20FreeCfg struct {
@@ -68,6 +99,8 @@ type c20FreeCfg struct {
 	Rounds  int   `json:"rounds"`
 	Seed    int64 `json:"seed"`
 	Errmod  int   `json:"errmod"`
+	Files   int   `json:"files,omitempty"` // additional files in the pulled package ...
+	Fsize   int   `json:"fsize,omitempty"` // ... of this many bytes each
 }
 
 type c20Scn struct {
@@ -111,6 +144,7 @@ type c20Env struct {
 	returned int // ... and returned
 	rets     map[int]*c20Ret
 	retOrder []int
+	origins  []*packagetypes.RawPackage // every object the pull function returned
 }
 
 // the scripted pull function: announces itself, then blocks until the scenario releases it.
@@ -129,10 +163,41 @@ func (e *c20Env) pull(
 	if <-p.release == "err" {
 		return nil, &c20Err{img: p.img, gen: p.gen}
 	}
-	return &packagetypes.RawPackage{Files: packagetypes.Files{
+	pkg := &packagetypes.RawPackage{Files: packagetypes.Files{
 		"id":   []byte(fmt.Sprintf("i%dg%d", p.img, p.gen)),
 		"data": []byte{0},
-	}}, nil
+	}}
+	e.mu.Lock()
+	e.origins = append(e.origins, pkg)
+	e.mu.Unlock()
+	return pkg, nil
+}
+
+// c20Scribble is what a caller does to the package it was handed, the moment it gets it (the
+// broadcast to the other receivers may still be going on): an in-place byte write.  The map write
+// follows as soon as no broadcast is in progress (record): while one is, a map write to an object
+// the broadcaster still reads would not be a wrong answer but a fatal runtime error.
+func c20Scribble(p *packagetypes.RawPackage) {
+	if p == nil || p.Files == nil {
+		return
+	}
+	if d := p.Files["data"]; len(d) > 0 {
+		d[0]++
+	}
+}
+
+// c20Idents: the memory identities of a package: the object, its Files map, every file's array.
+func c20Idents(p *packagetypes.RawPackage) []uintptr {
+	ids := []uintptr{uintptr(unsafe.Pointer(p))}
+	if p.Files != nil {
+		ids = append(ids, reflect.ValueOf(p.Files).Pointer())
+		for _, b := range p.Files {
+			if cap(b) > 0 {
+				ids = append(ids, uintptr(unsafe.Pointer(unsafe.SliceData(b))))
+			}
+		}
+	}
+	return ids
 }
 
 type c20Run struct {
@@ -147,8 +212,18 @@ type c20Run struct {
 	imageOf   map[int]int             // request index -> image
 	waitingOf map[int]int             // caller -> request index it is blocked on
 	got       map[int]*c20Ret         // all returned requests
-	probed    []int                   // request indexes whose package was mutated by the probe
+	probed    []int                   // request indexes (gates: negative) whose package is watched for foreign edits
 	recs      []string
+	order     [c20Imgs][]int          // requests registered for the image, in registration order
+	extraG    int                     // goroutines the harness knows to be alive besides callers and pulls
+	gates     []chan response         // gate receivers of parked broadcasts (cleanup)
+	ngate     int
+	idOwner   map[uintptr]int         // memory identity -> package it was seen in (origins: <= -1000)
+	nOrigin   int                     // prefix of env.origins already entered in idOwner
+	idAliased map[int]bool            // packages sharing memory with another receiver's package
+	idOrigin  map[int]bool            // packages sharing memory with an object the pull function returned
+	marked    map[int]bool            // watched packages that carry their owner's map write
+	inPark    bool                    // a broadcast is parked inside handleResponse
 }
 
 // settle waits until cond() holds and no goroutine is in transit.
@@ -161,6 +236,7 @@ func (x *c20Run) settle(cond func() bool) bool {
 		for i := 0; i < c20Imgs; i++ {
 			want += x.env.entered[i] - x.env.released[i]
 		}
+		want += x.extraG
 		x.env.mu.Unlock()
 		if ok && runtime.NumGoroutine() == want {
 			return true
@@ -201,6 +277,7 @@ func (x *c20Run) pickup() {
 	for idx, ch := range x.slow {
 		select {
 		case res := <-ch:
+			c20Scribble(res.RawPackage)
 			x.env.mu.Lock()
 			x.env.rets[idx] = &c20Ret{pkg: res.RawPackage, err: res.Err}
 			x.env.retOrder = append(x.env.retOrder, idx)
@@ -211,8 +288,29 @@ func (x *c20Run) pickup() {
 	}
 }
 
+// watch enters a package that was handed out into the aliasing checks.
+func (x *c20Run) watch(idx int, p *packagetypes.RawPackage) {
+	if p == nil {
+		return
+	}
+	for _, id := range c20Idents(p) {
+		if o, dup := x.idOwner[id]; dup && o != idx {
+			if o > -1000 { // memory shared between what two receivers were handed
+				x.idAliased[idx], x.idAliased[o] = true, true
+			} else { // the receiver was handed (part of) the object the pull function returned
+				x.idOrigin[idx] = true
+			}
+		} else {
+			x.idOwner[id] = idx
+		}
+	}
+	if p.Files != nil {
+		x.probed = append(x.probed, idx)
+	}
+}
+
 // record reports what happened since the previous record.
-func (x *c20Run) record(tag string) {
+func (x *c20Run) record(tag string, suffix ...string) {
 	x.pickup()
 	x.env.mu.Lock()
 	fresh := append([]int(nil), x.env.retOrder[x.seen:]...)
@@ -221,7 +319,14 @@ func (x *c20Run) record(tag string) {
 		x.got[idx] = x.env.rets[idx]
 	}
 	entered, released := x.env.entered, x.env.released
+	origins := x.env.origins[x.nOrigin:]
+	x.nOrigin = len(x.env.origins)
 	x.env.mu.Unlock()
+	for k, o := range origins {
+		for _, id := range c20Idents(o) {
+			x.idOwner[id] = -1000 - (x.nOrigin - len(origins) + k)
+		}
+	}
 
 	var rs []string
 	sort.Slice(fresh, func(a, b int) bool { return x.callerOf[fresh[a]] < x.callerOf[fresh[b]] })
@@ -232,28 +337,35 @@ func (x *c20Run) record(tag string) {
 		}
 		rs = append(rs, fmt.Sprintf("c%d:%s", c, c20ResStr(x.got[idx])))
 	}
-	// aliasing probe: every caller mutates what it was handed (adds a key, changes a byte) ...
+	// aliasing probe: every caller has edited what it was handed the moment it got it (c20Scribble:
+	// adds a key, changes a byte in place); the identities of everything handed out are compared
+	// with each other (a) and with the objects the pull function returned (o) ...
 	for _, idx := range fresh {
-		if p := x.got[idx].pkg; p != nil && p.Files != nil {
-			p.Files[fmt.Sprintf("m%d", idx)] = []byte{1}
-			if d := p.Files["data"]; len(d) > 0 {
-				d[0]++
+		x.watch(idx, x.got[idx].pkg)
+	}
+	if !x.inPark {
+		for _, idx := range x.probed {
+			if !x.marked[idx] {
+				x.got[idx].pkg.Files[fmt.Sprintf("m%d", idx)] = []byte{1}
+				x.marked[idx] = true
 			}
-			x.probed = append(x.probed, idx)
 		}
 	}
-	// ... and then nobody's package (of this or an earlier broadcast) may show anybody else's edit.
+	// ... and nobody's package (of this or an earlier broadcast) may show anybody else's edit.
 	aliased := 0
 	for _, idx := range x.probed {
 		f := x.got[idx].pkg.Files
-		marks := 0
+		marks, want := 0, 0
 		for k := range f {
 			if strings.HasPrefix(k, "m") {
 				marks++
 			}
 		}
 		_, own := f[fmt.Sprintf("m%d", idx)]
-		if marks != 1 || !own || len(f["data"]) != 1 || f["data"][0] != 1 {
+		if x.marked[idx] {
+			want = 1
+		}
+		if marks != want || own != x.marked[idx] || len(f["data"]) != 1 || f["data"][0] != 1 || x.idAliased[idx] {
 			aliased++
 		}
 	}
@@ -266,7 +378,39 @@ func (x *c20Run) record(tag string) {
 		p = append(p, fmt.Sprint(entered[i]))
 		f = append(f, fmt.Sprint(entered[i]-released[i]))
 	}
-	x.recs = append(x.recs, fmt.Sprintf("%s p=%s f=%s r=%s a=%d", tag, strings.Join(p, ","), strings.Join(f, ","), r, aliased))
+	// a = packages that show somebody else's edit or share memory with another receiver's package;
+	// o = packages that are not copies: (part of) the very object the pull function returned
+	x.recs = append(x.recs, fmt.Sprintf("%s p=%s f=%s r=%s a=%d o=%d%s", tag, strings.Join(p, ","), strings.Join(f, ","), r, aliased,
+		len(x.idOrigin), strings.Join(suffix, "")))
+}
+
+// launch: caller c calls the real Pull for image i on its own goroutine and edits what it gets
+// the moment it gets it (the slow receiver: the real handleRequest on its own goroutine; the
+// channel it returns is delivered on `got`).  Does not wait for anything.
+func (x *c20Run) launch(c, i int) (idx int, got chan (<-chan response)) {
+	img := c20ImgName(i)
+	idx = x.nreq
+	x.nreq++
+	x.callerOf[idx], x.imageOf[idx], x.waitingOf[c] = c, i, idx
+	if c == c20SlowCaller {
+		got = make(chan (<-chan response), 1)
+		x.extraG++
+		go func() { got <- x.rm.handleRequest(context.Background(), img) }()
+		return idx, got
+	}
+	x.env.mu.Lock()
+	x.env.issued++
+	x.env.mu.Unlock()
+	go func() {
+		pkg, err := x.rm.Pull(context.Background(), img)
+		c20Scribble(pkg)
+		x.env.mu.Lock()
+		x.env.rets[idx] = &c20Ret{pkg: pkg, err: err}
+		x.env.retOrder = append(x.env.retOrder, idx)
+		x.env.returned++
+		x.env.mu.Unlock()
+	}()
+	return idx, nil
 }
 
 // request: caller c calls the real Pull for image i on its own goroutine (the slow receiver:
@@ -277,34 +421,20 @@ func (x *c20Run) request(c, i int) bool {
 	n0 := len(x.rm.inFlight[img])
 	_, had := x.rm.inFlight[img]
 	x.rm.inFlightLock.Unlock()
-	idx := x.nreq
-	x.nreq++
 	x.env.mu.Lock()
 	e0 := x.env.entered[i]
-	if c != c20SlowCaller {
-		x.env.issued++
-	}
 	x.env.mu.Unlock()
-	x.callerOf[idx], x.imageOf[idx], x.waitingOf[c] = c, i, idx
-	if c == c20SlowCaller {
-		got := make(chan (<-chan response), 1)
-		go func() { got <- x.rm.handleRequest(context.Background(), img) }()
+	idx, got := x.launch(c, i)
+	if got != nil {
 		select {
 		case ch := <-got:
 			x.slow[idx] = ch
+			x.extraG--
 		case <-time.After(c20StepTimeout):
 			return false
 		}
-	} else {
-		go func() {
-			pkg, err := x.rm.Pull(context.Background(), img)
-			x.env.mu.Lock()
-			x.env.rets[idx] = &c20Ret{pkg: pkg, err: err}
-			x.env.retOrder = append(x.env.retOrder, idx)
-			x.env.returned++
-			x.env.mu.Unlock()
-		}()
 	}
+	x.order[i] = append(x.order[i], idx)
 	return x.settle(func() bool {
 		x.rm.inFlightLock.Lock()
 		n := len(x.rm.inFlight[img])
@@ -339,6 +469,7 @@ func (x *c20Run) complete(i int, res string) (happened, ok bool) {
 			waiters = append(waiters, idx)
 		}
 	}
+	x.order[i] = nil
 	p.release <- res
 	return true, x.settle(func() bool {
 		x.env.mu.Lock()
@@ -352,8 +483,221 @@ func (x *c20Run) complete(i int, res string) (happened, ok bool) {
 	})
 }
 
+
+// tryLock: is inFlightLock free?  (true: the harness holds it now.)  A broadcaster that holds the
+// lock holds it for the whole time it is parked, so a single success proves it does not.
+func (x *c20Run) tryLock() bool {
+	for n := 0; n < 40; n++ {
+		if x.rm.inFlightLock.TryLock() {
+			return true
+		}
+		runtime.Gosched()
+	}
+	return false
+}
+
+// park: the pull in flight for image i returns res; the real handleResponse is parked after its
+// first k sends, the requests mid arrive, the broadcast is resumed.  happened=false: no pull in
+// flight; fail != "": a deadline passed.
+func (x *c20Run) park(i int, res string, k int, mid []c20Mid) (happened bool, fail string) {
+	img := c20ImgName(i)
+	x.env.mu.Lock()
+	if len(x.env.blocked[i]) == 0 {
+		x.env.mu.Unlock()
+		return false, ""
+	}
+	p := x.env.blocked[i][0]
+	x.env.blocked[i] = x.env.blocked[i][1:]
+	x.env.released[i]++
+	x.env.mu.Unlock()
+
+	// two unbuffered gate receivers after the first k registered receivers: once the harness has
+	// received from the first one, the broadcaster is inside its loop, has served exactly the
+	// receivers before the gates and cannot get past the second one.
+	gateA, gateB := make(chan response), make(chan response)
+	x.gates = append(x.gates, gateA, gateB)
+	x.rm.inFlightLock.Lock()
+	recvs := x.rm.inFlight[img]
+	kk := k
+	if kk > len(recvs) {
+		kk = len(recvs)
+	}
+	neu := make([]chan<- response, 0, len(recvs)+2)
+	neu = append(neu, recvs[:kk]...)
+	neu = append(neu, gateA, gateB)
+	neu = append(neu, recvs[kk:]...)
+	x.rm.inFlight[img] = neu
+	x.rm.inFlightLock.Unlock()
+	order := x.order[i]
+	if kk > len(order) {
+		kk = len(order)
+	}
+	first, rest := order[:kk], order[kk:]
+	answered := func(idxs []int) func() bool {
+		return func() bool {
+			x.env.mu.Lock()
+			defer x.env.mu.Unlock()
+			for _, idx := range idxs {
+				if _, slow := x.slow[idx]; !slow && x.env.rets[idx] == nil {
+					return false
+				}
+			}
+			return true
+		}
+	}
+	gate := func(g chan response) bool {
+		select {
+		case r := <-g:
+			x.ngate++
+			x.got[-x.ngate] = &c20Ret{pkg: r.RawPackage, err: r.Err}
+			return true
+		case <-time.After(c20StepTimeout):
+			return false
+		}
+	}
+
+	x.extraG++ // the broadcaster: its pull function has returned, handleResponse is running
+	x.inPark = true
+	defer func() { x.inPark = false }()
+	p.release <- res
+	if !gate(gateA) {
+		return true, "broadcast-did-not-reach-the-parking-point"
+	}
+	if !x.settle(answered(first)) {
+		return true, "receivers-before-the-parking-point-not-answered"
+	}
+	held := 1
+	if x.tryLock() {
+		held = 0
+		x.rm.inFlightLock.Unlock()
+	}
+	// what the gate was handed is a package like any other
+	c20Scribble(x.got[-x.ngate].pkg)
+	x.watch(-x.ngate, x.got[-x.ngate].pkg)
+	x.record("P", fmt.Sprintf(" l=%d", held))
+
+	// requests arriving while the broadcast is parked
+	x.env.mu.Lock()
+	e0 := x.env.entered
+	x.env.mu.Unlock()
+	type pend struct {
+		idx, img int
+		got      chan (<-chan response)
+	}
+	var pending []pend
+	// the slow receiver's handleRequest returns its channel once it got through
+	collect := func() {
+		for n := range pending {
+			if pending[n].got == nil {
+				continue
+			}
+			select {
+			case ch := <-pending[n].got:
+				x.slow[pending[n].idx] = ch
+				x.extraG--
+				pending[n].got = nil
+			default:
+			}
+		}
+	}
+	pendC, pendI := map[int]bool{}, map[int]bool{}
+	for _, m := range mid {
+		if _, busy := x.waitingOf[m.C]; busy || pendC[m.C] || pendI[m.I] {
+			x.record("b")
+			continue
+		}
+		pendC[m.C], pendI[m.I] = true, true
+		free, n0 := x.tryLock(), 0
+		if free {
+			n0 = len(x.rm.inFlight[c20ImgName(m.I)])
+			x.rm.inFlightLock.Unlock()
+		}
+		idx, got := x.launch(m.C, m.I)
+		pending = append(pending, pend{idx, m.I, got})
+		held = 1
+		if free {
+			// the lock is not held: the request is not blocked, let it get as far as it gets
+			held = 0
+			if !x.settle(func() bool {
+				collect()
+				if got != nil && pending[len(pending)-1].got != nil {
+					return false
+				}
+				if !x.rm.inFlightLock.TryLock() {
+					return false
+				}
+				defer x.rm.inFlightLock.Unlock()
+				return len(x.rm.inFlight[c20ImgName(m.I)]) == n0+1
+			}) {
+				c20Timeouts++ // neither blocked nor registered: do not pile up such waits
+			}
+		}
+		x.record("w", fmt.Sprintf(" l=%d", held))
+	}
+
+	// resume
+	if !gate(gateB) {
+		return true, "parked-broadcast-did-not-resume"
+	}
+	c20Scribble(x.got[-x.ngate].pkg)
+	x.watch(-x.ngate, x.got[-x.ngate].pkg)
+	x.extraG--
+	var wantLen, wantEntered [c20Imgs]int
+	for j := 0; j < c20Imgs; j++ {
+		if j != i {
+			wantLen[j] = len(x.order[j])
+		}
+		wantEntered[j] = e0[j]
+	}
+	for _, pd := range pending {
+		if wantLen[pd.img] == 0 {
+			wantEntered[pd.img]++
+		}
+		wantLen[pd.img]++
+	}
+	if !x.settle(func() bool { collect(); return answered(rest)() }) {
+		return true, "receivers-after-the-parking-point-not-answered"
+	}
+	served := x.settle(func() bool {
+		collect()
+		for _, pd := range pending {
+			if pd.got != nil { // handleRequest of the slow receiver has not returned yet
+				return false
+			}
+		}
+		x.rm.inFlightLock.Lock()
+		defer x.rm.inFlightLock.Unlock()
+		x.env.mu.Lock()
+		defer x.env.mu.Unlock()
+		for j := 0; j < c20Imgs; j++ {
+			if len(x.rm.inFlight[c20ImgName(j)]) != wantLen[j] || x.env.entered[j] < wantEntered[j] {
+				return false
+			}
+		}
+		return true
+	})
+	if !served {
+		// a request issued during the broadcast did not get through after it (not registered for
+		// the next pull, or no pull started for it): say what is there, the monitor names it.
+		c20Timeouts++
+	}
+	x.order[i] = nil
+	for _, pd := range pending {
+		x.order[pd.img] = append(x.order[pd.img], pd.idx)
+	}
+	x.inPark = false
+	x.record("U")
+	return true, ""
+}
+
 // cleanup lets every goroutine that can still end do so (only matters for misbehaving code).
 func (x *c20Run) cleanup() {
+	for _, g := range x.gates { // a broadcaster still parked at a gate
+		select {
+		case <-g:
+		case <-time.After(20 * time.Millisecond):
+		}
+	}
 	for _, ch := range x.slow { // unblock a broadcast that waits for the slow receiver
 		select {
 		case <-ch:
@@ -399,7 +743,7 @@ func c20Exec(s c20Scn) string {
 	rm.pullImage = env.pull
 	x := &c20Run{env: env, rm: rm, base: runtime.NumGoroutine(),
 		callerOf: map[int]int{}, imageOf: map[int]int{}, waitingOf: map[int]int{}, got: map[int]*c20Ret{},
-		slow: map[int]<-chan response{}}
+		slow: map[int]<-chan response{}, idOwner: map[uintptr]int{}, idAliased: map[int]bool{}, idOrigin: map[int]bool{}, marked: map[int]bool{}}
 	timeout := func(k int, what string) string {
 		c20Timeouts++
 		x.recs = append(x.recs, fmt.Sprintf("TIMEOUT step=%d %s", k, what))
@@ -429,6 +773,24 @@ func c20Exec(s c20Scn) string {
 			if happened {
 				x.record("d")
 			} else {
+				x.record("n")
+			}
+		case "park":
+			bad := st.K < 0
+			for _, m := range st.Mid {
+				if m.I < 0 || m.I >= c20Imgs || m.C < 0 {
+					bad = true
+				}
+			}
+			if bad {
+				x.recs = append(x.recs, "BAD-OP")
+				continue
+			}
+			happened, fail := x.park(st.I, st.R, st.K, st.Mid)
+			if fail != "" {
+				return timeout(k, fail)
+			}
+			if !happened {
 				x.record("n")
 			}
 		default:
@@ -495,6 +857,20 @@ func c20Tags(s c20Scn, out string) []string {
 				add("result=err")
 			} else {
 				add("result=ok")
+			}
+		case strings.HasPrefix(rec, "P "):
+			add("park")
+			switch n := strings.Count(rec, ":ok:") + strings.Count(rec, ":err:"); {
+			case n == 0:
+				add("park-before-first-send")
+			default:
+				add("park-after-some-sends")
+			}
+		case strings.HasPrefix(rec, "w "):
+			add("request-during-broadcast")
+		case strings.HasPrefix(rec, "U "):
+			if strings.Count(rec, ":ok:")+strings.Count(rec, ":err:") == 0 {
+				add("park-after-last-send")
 			}
 		case strings.HasPrefix(rec, "TIMEOUT"):
 			add("TIMEOUT")
@@ -645,11 +1021,154 @@ func TestVerifC20(t *testing.T) {
 	r.Extra["timeouts"] = c20Timeouts
 }
 
+
+// ---------------------------------------------------------------------------------------------
+// stream "park": broadcasts observed from the inside
+
+func TestVerifC20Park(t *testing.T) {
+	r := verifkit.Open(t, "C20")
+	defer r.Close()
+	run := func(s c20Scn) bool {
+		if c20Timeouts >= c20Fuse {
+			if r.ReplayOnly() {
+				r.Emit(s, "SKIPPED earlier scenarios of this run timed out")
+			}
+			return false
+		}
+		out := verifkit.Guard(func() string { return c20Exec(s) })
+		r.Emit(s, out, c20Tags(s, out)...)
+		return true
+	}
+	for _, line := range r.Fixed() {
+		var s c20Scn
+		if err := json.Unmarshal([]byte(line), &s); err != nil {
+			t.Fatalf("bad scenario %q: %v", line, err)
+		}
+		if s.Free != nil {
+			continue
+		}
+		run(s)
+	}
+	if r.ReplayOnly() {
+		return
+	}
+	var alpha []c20Step
+	var mids [][]c20Mid // every sequence of at most two requests
+	mids = append(mids, nil)
+	for c := 0; c < c20Callers; c++ {
+		for i := 0; i < c20Imgs; i++ {
+			alpha = append(alpha, c20Step{Op: "req", C: c, I: i})
+			mids = append(mids, []c20Mid{{c, i}})
+		}
+	}
+	for _, a := range mids[1 : 1+c20Callers*c20Imgs] {
+		for _, b := range mids[1 : 1+c20Callers*c20Imgs] {
+			mids = append(mids, []c20Mid{a[0], b[0]})
+		}
+	}
+	for i := 0; i < c20Imgs; i++ {
+		alpha = append(alpha, c20Step{Op: "done", I: i, R: "ok"}, c20Step{Op: "done", I: i, R: "err"})
+	}
+	alive := true
+	// (1) every sequence of enabled req/done steps up to length L, followed by every parked
+	// completion that is enabled then: image in flight x ok/err x parking point 0..#waiters x
+	// every sequence of at most two requests arriving meanwhile (issued or not).
+	L := 3
+	count1 := 0
+	var en func(prefix []c20Step, wait [c20Callers]int)
+	en = func(prefix []c20Step, wait [c20Callers]int) {
+		if !alive {
+			return
+		}
+		var n [c20Imgs]int
+		for _, w := range wait {
+			if w >= 0 {
+				n[w]++
+			}
+		}
+		for i := 0; i < c20Imgs && len(prefix) > 0; i++ {
+			if n[i] == 0 {
+				continue
+			}
+			for _, res := range []string{"ok", "err"} {
+				for k := 0; k <= n[i]; k++ {
+					for _, m := range mids {
+						if !alive {
+							return
+						}
+						st := c20Step{Op: "park", I: i, R: res, K: k, Mid: m}
+						alive = run(c20Scn{Steps: append(append([]c20Step(nil), prefix...), st)})
+						count1++
+					}
+				}
+			}
+		}
+		if len(prefix) == L {
+			return
+		}
+		for _, a := range alpha {
+			w := wait
+			if a.Op == "req" {
+				if w[a.C] >= 0 {
+					continue
+				}
+				w[a.C] = a.I
+			} else {
+				inflight := false
+				for c := range w {
+					if w[c] == a.I {
+						inflight = true
+						w[c] = -1
+					}
+				}
+				if !inflight {
+					continue
+				}
+			}
+			en(append(prefix, a), w)
+		}
+	}
+	en(nil, [c20Callers]int{-1, -1, -1})
+	r.Extra["exhaustive_prefix_len"] = L
+	r.Extra["exhaustive_park_count"] = count1
+	// (2) random longer sequences of req / done / park (disabled steps, parking points beyond the
+	// number of waiters, more requests arriving meanwhile, several parked broadcasts per scenario)
+	n := r.Pick(1500, 6000)
+	for j := 0; j < n && alive; j++ {
+		l := 4 + r.Rng.Intn(21)
+		var s c20Scn
+		for q := 0; q < l; q++ {
+			res := "ok"
+			if r.Rng.Intn(3) == 0 {
+				res = "err"
+			}
+			switch x := r.Rng.Intn(10); {
+			case x < 5:
+				s.Steps = append(s.Steps, c20Step{Op: "req", C: r.Rng.Intn(c20Callers), I: r.Rng.Intn(c20Imgs)})
+			case x < 7:
+				s.Steps = append(s.Steps, c20Step{Op: "done", I: r.Rng.Intn(c20Imgs), R: res})
+			default:
+				st := c20Step{Op: "park", I: r.Rng.Intn(c20Imgs), R: res, K: r.Rng.Intn(5)}
+				for m := r.Rng.Intn(4); m > 0; m-- {
+					st.Mid = append(st.Mid, c20Mid{r.Rng.Intn(c20Callers), r.Rng.Intn(c20Imgs)})
+				}
+				s.Steps = append(s.Steps, st)
+			}
+		}
+		if j%50 == 0 { // malformed: a request for an image the harness does not script arrives meanwhile
+			s.Steps = append(s.Steps, c20Step{Op: "park", I: 0, R: "ok", K: 1, Mid: []c20Mid{{0, c20Imgs + r.Rng.Intn(3)}}})
+		}
+		alive = run(s)
+	}
+	r.Extra["random_count"] = n
+	r.Extra["timeouts"] = c20Timeouts
+}
+
 // ---------------------------------------------------------------------------------------------
 // exploration: free-running goroutines (run with -race in the thorough tier)
 
 func c20FreeExec(f c20FreeCfg) string {
-	if f.Images < 1 || f.Images > 8 || f.Callers < 1 || f.Rounds < 0 {
+	if f.Images < 1 || f.Images > 8 || f.Callers < 1 || f.Rounds < 0 || f.Files < 0 || f.Fsize < 0 {
 		return "BAD-OP"
 	}
 	var inflight, maxInflight, pulls, requests [8]atomic.Int64
@@ -678,11 +1197,22 @@ func c20FreeExec(f c20FreeCfg) string {
 		case 3:
 			time.Sleep(time.Duration(n%40) * time.Microsecond)
 		}
+		if f.Files > 0 {
+			time.Sleep(300 * time.Microsecond) // let the callers gather on this pull
+		}
 		inflight[img].Add(-1)
 		if f.Errmod > 0 && n%int64(f.Errmod) == 0 {
 			return nil, &c20Err{img: img, gen: int(n)}
 		}
-		return &packagetypes.RawPackage{Files: packagetypes.Files{"id": []byte(ref), "data": []byte{0}}}, nil
+		files := packagetypes.Files{"id": []byte(ref), "data": []byte{0}}
+		for k := 0; k < f.Files; k++ {
+			b := make([]byte, f.Fsize)
+			for q := range b {
+				b[q] = 'o'
+			}
+			files[fmt.Sprintf("f%04d", k)] = b
+		}
+		return &packagetypes.RawPackage{Files: files}, nil
 	}
 	var answered, wrong, aliased atomic.Int64
 	var wg sync.WaitGroup
@@ -700,16 +1230,34 @@ func c20FreeExec(f c20FreeCfg) string {
 				switch {
 				case err != nil && pkg == nil && errors.As(err, &pe) && pe.img == img:
 				case err == nil && pkg != nil && string(pkg.Files["id"]) == c20ImgName(img):
-					// the caller owns what it was handed: edit it
-					if _, other := pkg.Files["m"]; other {
-						aliased.Add(1)
+					// the caller owns what it was handed: it must be as the pull function made it
+					// (nobody else's edits in it) and the caller edits all of it, in place, right away
+					foreign := false
+					if _, other := pkg.Files["m"]; other || len(pkg.Files) != 2+f.Files {
+						foreign = true
+					}
+					for name, b := range pkg.Files {
+						switch name {
+						case "id", "m":
+						case "data":
+							if len(b) == 1 {
+								b[0]++
+								if b[0] != 1 {
+									foreign = true
+								}
+							}
+						default:
+							for q := range b {
+								if b[q] != 'o' {
+									foreign = true
+								}
+								b[q] = 'A' + byte(c)
+							}
+						}
 					}
 					pkg.Files["m"] = []byte{byte(c)}
-					if d := pkg.Files["data"]; len(d) == 1 {
-						d[0]++
-						if d[0] != 1 {
-							aliased.Add(1)
-						}
+					if foreign {
+						aliased.Add(1)
 					}
 				default:
 					wrong.Add(1)
@@ -775,6 +1323,50 @@ func TestVerifC20Race(t *testing.T) {
 		f := &c20FreeCfg{
 			Callers: 2 + r.Rng.Intn(15), Images: 1 + r.Rng.Intn(3), Rounds: 20 + r.Rng.Intn(300),
 			Seed: r.Rng.Int63n(1 << 30), Errmod: r.Rng.Intn(5),
+		}
+		run(c20Scn{Free: f})
+	}
+}
+
+// Stream "storm": the hook-free way to open the window inside the broadcast.  Many callers wait
+// for the same big package, so the broadcast (one deep copy per receiver) takes long; every
+// caller edits all of its package the moment it is answered and asks again right away - while
+// the broadcast to the others is still going on.  A request lost in that window never returns
+// (watchdog: TIMEOUT), a package copied from an object its owner is already editing shows the
+// edits (aliased), and under -race (thorough tier) the unsynchronised accesses are reported.
+func TestVerifC20Storm(t *testing.T) {
+	r := verifkit.Open(t, "C20")
+	defer r.Close()
+	run := func(s c20Scn) {
+		if c20Timeouts >= 1 { // callers of an earlier scenario hang and hold on to their packages
+			if r.ReplayOnly() {
+				r.Emit(s, "SKIPPED earlier scenarios of this run timed out")
+			}
+			return
+		}
+		out := verifkit.Guard(func() string { return c20FreeExec(*s.Free) })
+		r.Emit(s, out, fmt.Sprintf("callers=%d", s.Free.Callers), fmt.Sprintf("images=%d", s.Free.Images),
+			fmt.Sprintf("pkgKiB=%d", s.Free.Files*s.Free.Fsize/1024/512*512))
+	}
+	for _, line := range r.Fixed() {
+		var s c20Scn
+		if err := json.Unmarshal([]byte(line), &s); err != nil {
+			t.Fatalf("bad scenario %q: %v", line, err)
+		}
+		if s.Free == nil {
+			continue
+		}
+		run(s)
+	}
+	if r.ReplayOnly() {
+		return
+	}
+	n := r.Pick(3, 10)
+	for k := 0; k < n; k++ {
+		f := &c20FreeCfg{
+			Callers: 5 + r.Rng.Intn(6), Images: 1 + k%2, Rounds: 6 + r.Rng.Intn(6),
+			Seed: r.Rng.Int63n(1 << 30), Errmod: []int{0, 0, 7}[r.Rng.Intn(3)],
+			Files: 600 + r.Rng.Intn(900), Fsize: 4096,
 		}
 		run(c20Scn{Free: f})
 	}
